@@ -8,7 +8,7 @@ import numpy as np
 
 from .. import gen1
 from ..core import rs
-from . import coll_parts
+from . import c05_bins, coll_parts
 from .base1 import Hist1Prop
 from .c04 import values as grid_values
 
@@ -61,7 +61,13 @@ class C05(Hist1Prop):
             "members are created (create / multi_h1) from a random partition of one data set (NaN, empty members, int / float "
             "weights): sum() vs h1(all data) and vs another member order, members vs h1(part), look-ups, add() of the same / "
             "another binning, normalize_all, sum() of an empty collection, copy() independence; members snapshotted around "
-            "every call. non-trivial = both operands non-empty; distinct = hash of the op list")
+            "every call. One case in eight (stream:bins_vs_params, c05_bins.py): two operands (1-D, or N-d with one such axis) "
+            "whose binnings agree in every summary -- width, bin count, first grid index, class, number of edges -- but not in "
+            "their bins (shifted fixed-width grids in every spelling, edges one ulp / less / more than the allclose tolerance "
+            "apart), or the other way round (static / numpy / fixed-width objects and arrays over the same edges, offsets a whole "
+            "period apart, only includes_right_edge differs): a + b, b + a, a += b, sum([a, b]), HistogramCollection(a, b) / "
+            ".add / .sum() must be refused when the bins clearly differ and hold the pointwise sums (= h of both data sets) when "
+            "they are equal; operands unchanged either way. non-trivial = both operands non-empty; distinct = hash of the op list")
     FIELDS = {"bins", "freq", "err2", "under", "over", "total", "dtype", "keep"}
 
     def fields_for(self, case):
@@ -73,21 +79,29 @@ class C05(Hist1Prop):
 
     # ---- HistogramCollection cases (coll_parts): dispatched on case["sub"] == "coll"
     def run_impl(self, case):
+        if case.get("sub") == "binsvs":
+            return c05_bins.run_impl(case)
         if case.get("sub") == "coll":
             return coll_parts.run_impl(case)
         return super().run_impl(case)
 
     def model_case(self, case, io):
+        if case.get("sub") == "binsvs":
+            return c05_bins.model_case(case, io)
         if case.get("sub") == "coll":
             return coll_parts.model_case(case, io)
         return super().model_case(case, io)
 
     def diff(self, case, model_ok, io):
+        if case.get("sub") == "binsvs":
+            return c05_bins.diff(case, model_ok, io, self.fields_for(case))
         if case.get("sub") == "coll":
             return coll_parts.diff(case, model_ok, io, self.fields_for(case))
         return super().diff(case, model_ok, io)
 
     def gen_case(self, rng, k, tier):
+        if k % 8 == 3:
+            return c05_bins.gen(rng)       # stream:bins_vs_params
         if k % 8 == 5:
             return coll_parts.gen(rng)
         if k % 4 == 2:
@@ -180,7 +194,21 @@ class C05(Hist1Prop):
         ops.append({"op": "invalid", "what": src["invalid"], "h": 0})
         return {"kind": "hist1", "ops": ops, "tags": tags, "src": src}
 
+    def tags(self, case, io):
+        t = super().tags(case, io)
+        if case.get("sub") == "binsvs":
+            t += c05_bins.dynamic_tags(case, io)
+        return t
+
+    def neighbours(self, case):
+        if case.get("sub") == "binsvs":
+            return list(c05_bins.neighbours(case))
+        return super().neighbours(case)
+
     def shrink_candidates(self, case):
+        if case.get("sub") == "binsvs":
+            yield from c05_bins.shrink_candidates(case)
+            return
         if case.get("sub") == "coll":
             yield from coll_parts.shrink_candidates(case)
             return
@@ -198,6 +226,8 @@ class C05(Hist1Prop):
                 yield self.build(s2, case.get("tags", []))
 
     def oracle(self, case, io):
+        if case.get("sub") == "binsvs":
+            return c05_bins.oracle(case, io)
         if case.get("sub") == "coll":
             return coll_parts.oracle(case, io)
         if case.get("kind") == "histn":
@@ -269,6 +299,8 @@ class C05(Hist1Prop):
         return fails[:6]
 
     def nontrivial(self, case, io):
+        if case.get("sub") == "binsvs":
+            return c05_bins.nontrivial(case, io)
         if case.get("sub") == "coll":
             return coll_parts.nontrivial(case, io)
         if case.get("kind") == "histn":
